@@ -4,11 +4,11 @@ import re
 from .. import app, engine, fixlib
 from ..runner import Run, h64
 
-PLAN = {"B2/53": 300, "B3/89": 180, "N1/11": 420, "W1/2": 360, "S2": 240, "S3": 60, "I4/97": 120, "U1/7": 60, "P2": 180, "R2/3": 200, "Z1": 300}
+PLAN = {"B2/53": 300, "B3/89": 180, "N1/11": 420, "W1/2": 360, "S2": 240, "S3": 60, "I4/97": 120, "U1/7": 60, "P2": 180, "R2/3": 200, "Z1": 300, "Q2/3": 150, "P3/5": 120}
 EVALUATOR = "vp.props.c10:ev"
 RULE = (
     "file sets of 3: the universe document plus two companions drawn by source hash from a pool of clean / unfixable-failure / fixable documents, placed before and after it in "
-    "processing order; `fix` under both return-code schemes (argument and mode.return_code_scheme via --set), then `scan`, `scan --list-files`, `fix --list-files`, `scan-stdin`; oracle: "
+    "processing order; `fix` under both return-code schemes (argument and mode.return_code_scheme via --set), then `scan`, `scan --list-files`, `fix --list-files`, `scan-stdin` (also with input that cannot be encoded as UTF-8); oracle: "
     "hash snapshot of the private working and temp directories before/after: changed(f) <=> 'Fixed: f' printed, exit==3 (default) / 0 (minimal) <=> some file changed, a file whose "
     "prior scan shows no failure from a fix-capable rule is byte-identical, no file created or left behind; read-only commands leave both directories identical; non-trivial = "
     "the set contains a file that changes and one that does not; distinct by (source hash, scheme)"
@@ -97,6 +97,9 @@ def ev(src, opts, rank):
         ("scan-l", ["scan", "--list-files", "."], None),
         ("fix-l", ["fix", "--list-files", "."], None),
         ("stdin", ["scan-stdin"], src),
+        # input that cannot be encoded as UTF-8 (a lone surrogate, what undecodable bytes on a real stdin become under
+        # surrogateescape): the run ends in an error, and must still leave nothing behind
+        ("stdin-unencodable", ["scan-stdin"], src + "\udcff\n"),
     ):
         if cname == "stdin" and not src.strip():
             continue
